@@ -36,6 +36,7 @@ def gor (args : List String) : String :=
 /-- gdec <hex bytes> : decode arbitrary bytes (malformed stream) -/
 def gdec (args : List String) : String :=
   match args with
+  | [] => s!"dec={showDec (decodeAll [])}"
   | [h] => match hexBytes? h with
     | some bs => s!"dec={showDec (decodeAll (unpack bs))}"
     | none => "bad-op"
